@@ -399,6 +399,9 @@ def run(prop, tier, replay=None):
                    "exc_msg": ev.get("exc_msg", "")}
             out.violation(sig, {"crystal": crystals[ci] if ci >= 0 else None, "request": rq, "observed": ev})
     out.notes["rejected_by_clause"] = by
+    if prop == "C08" and not replay:
+        from . import realfiles
+        realfiles.run_c08(out, tier, sd)
     out.assumptions = ["harness/replaceops.py + katoms.py + findops.py rendering/projection (numpy)",
                        "the search inside the call is observed by rebinding mofun.mofun.find_pattern_in_structure",
                        "poses of planted copies are cube rotations (plus seeded global rotations / joint pattern motions)"]
